@@ -15,6 +15,7 @@ Decided:
      hook data's env; the hook data given to the template engine is the event's data;
   R8 the template variables documented per hook type in acmed.toml(5) exist in the data structure used for that type.
 """
+import re
 from .. import artifacts as A
 from ..flow import arg_origins, origins
 from ..mir import op_const, op_local, try_edges
@@ -181,14 +182,26 @@ def order_rules(ctx):
             for f in filt:
                 dj = f.calls_to("std::collections::hash::set::HashSet::is_disjoint")
                 caps, cst = closure_captures_of(nb, f.key)
+                # the construction of the predicate that THIS field's value passes through (a shared `select_hooks(list, family)` helper is
+                # inlined once per use: same closure, different captured family)
+                for i2, st2 in agg_assigns(nb, kind="closure"):
+                    if st2["rv"].get("def") == f.key and st2["lhs"]["l"] in sl.locals:
+                        caps = st2["rv"]["ops"]
+                        break
                 ok_ = False
                 for d in dj:
                     a0 = arg_origins(d, 0)
                     a1 = arg_origins(d, 1)
                     if ("acmed::hooks::Hook", "hook_type") in a0.fields and a1.has_leaf("upvar:0") and caps:
                         cap = origins(nb, caps[0])
-                        named = {nb.local_name(l) for l in cap.locals}
-                        ok_ = fam_local in named
+                        # the captured set IS the family, by value: the HookType variants its provenance is built from (array literal,
+                        # vec!, or a `const [HookType; N]` item), not the name of the local
+                        vs = {v for a_, v in cap.aggs if a_.endswith("HookType")} | {c_.get("variant") for c_ in cap.consts if c_.get("variant")}
+                        for c_ in cap.consts:
+                            if "HookType;" in (c_.get("ty") or "") and c_.get("pp"):
+                                vs |= set(re.findall(r"HookType::(\w+)", c_["pp"]))
+                        want_f = FILE_TYPES if fam_local == "file_hooks" else (allv - FILE_TYPES)
+                        ok_ = vs == want_f
                     neg = True
                 ctx.require(R3, ok_, "%s:%s" % (f.file, f.line), "%s keeps the hooks whose types intersect its own family (`%s`)" % (adt.rsplit("::", 1)[1], fam_local), [MEL, "hooks-family", adt.rsplit("::", 1)[1]])
 
@@ -203,6 +216,25 @@ def hook_families(prog, nb):
                     sl = origins(nb, o)
                     vs |= {v for a, v in sl.aggs if a.endswith("HookType")} | {c.get("variant") for c in sl.consts if c.get("variant")}
                 fams.append(vs)
+            elif st["s"] == "assign" and st["rv"]["k"] == "use" and "const" in (st["rv"].get("op") or {}) and "HookType;" in (st["rv"]["op"]["const"].get("ty") or ""):
+                # the family as a `const [HookType; N]` item (`HashSet::from(FILE_HOOK_TYPES)`)
+                from ..absint import const_val
+                v = const_val(nb, st["rv"]["op"]).deref()
+                if v.k in ("list", "tuple"):
+                    vs = {x.deref().v for x in v.v if x.deref().k == "variant"}
+                    if vs and vs not in fams:
+                        fams.append(vs)
+        t = nb.term(i)
+        if t["t"] == "call":
+            for a in t.get("args", []):
+                c = a.get("const") if isinstance(a, dict) else None
+                if c and "HookType;" in (c.get("ty") or ""):
+                    from ..absint import const_val
+                    v = const_val(nb, a).deref()
+                    if v.k in ("list", "tuple"):
+                        vs = {x.deref().v for x in v.v if x.deref().k == "variant"}
+                        if vs and vs not in fams:
+                            fams.append(vs)
     return fams
 
 
